@@ -26,7 +26,7 @@ RULE = ("Hypothesis histories (create + 3-12 operations: append, multi-op transa
         "content must be flushed before its rename. Non-trivial prefix: it ends between the first write of a file of a commit and that commit's pointer flip. "
         "distinct = (operation kind, normalised step label). Shared handle: two or three committers (append / multi-append transaction) run as threads on ONE "
         "Table object, followed by one more commit through it; the deterministic scheduler decides at every traced call (exhaustive single preemption for "
-        "append x append, Hypothesis schedules with 1-3 preemptions otherwise); same trace model and invariant at every flip.")
+        "append x append, plus every 'A interrupted at i, B runs 1-8 steps, A finishes, then B' double preemption; Hypothesis schedules with 1-3 preemptions otherwise); same trace model and invariant at every flip.")
 ASSUMPTIONS = ["POSIX power-loss model: content is durable only after fsync of the inode, a name only after fsync of its directory; fsync through a fresh "
                "read-only descriptor of the same inode is equivalent (Linux)", "durability of newly created directories' own entries is recorded as a diagnostic only",
                "natively written parquet bytes are modelled as one volatile write completed at ParquetWriter.close"]
@@ -432,6 +432,8 @@ def check_conc(case):
         _evaluate(full, root, out, labels, preexisting=pre)
         out["nontrivial"] = len(run.flips) >= 2
         out["decisions"] = run.sched.decisions
+        # decisions at which actor 0 is about to PUBLISH a file (rename it to its final name)
+        out["publish_points"] = [d + 1 for d, aidx, label, _t in run.sched.log if aidx == 0 and label.endswith("os.replace")]
     out["labels"] = sorted(labels)
     return out
 
@@ -445,7 +447,14 @@ def run_conc_enum(task):
     n = len(ops) + 1
     o = check_conc({"kind": "conc", "ops": ops, "schedule": {"order": list(range(n))}})
     D = o.get("decisions", 300)
-    scheds = [{"order": list(range(n))}] + [{"order": list(range(n)), "preempt": [[i, j]]} for i in range(1, int(D * 1.1) + 2) for j in range(n - 1)]
+    if task.get("depth2"):
+        # 'A is interrupted at i, B runs k steps, A continues to its end, then B': B gets stuck in the middle of one of its steps
+        # while A completes a step of its own - the shape of lost-update races on state shared through the handle
+        scheds = [{"order": list(range(n)), "preempt": [[i, 1], [i + k, 0]]} for i in range(1, int(D * 1.1) + 2) for k in range(1, 9)]
+        # ... and, with A parked right before it publishes a file, B may run up to 160 steps (a whole commit minus its flip)
+        scheds += [{"order": list(range(n)), "preempt": [[i, 1], [i + k, 0]]} for i in o.get("publish_points", []) for k in range(9, 161)]
+    else:
+        scheds = [{"order": list(range(n))}] + [{"order": list(range(n)), "preempt": [[i, j]]} for i in range(1, int(D * 1.1) + 2) for j in range(n - 1)]
     keys = set()
     for idx, schd in enumerate(scheds):
         if idx % task["nshard"] != task["shard"]:
@@ -453,7 +462,7 @@ def run_conc_enum(task):
         case = {"kind": "conc", "ops": ops, "schedule": schd}
         o = check_conc(case)
         keys.update(o.pop("nt_keys"))
-        res.case(key=None, nontrivial=False, labels=o["labels"] + ["conc-enum-depth1"], sample=case if idx % 97 == 0 else None)
+        res.case(key=None, nontrivial=False, labels=o["labels"] + ["conc-enum-depth2" if task.get("depth2") else "conc-enum-depth1"], sample=case if idx % 97 == 0 else None)
         res.evaluations += o["prefixes"] - 1
         for b, w in o["violations"]:
             res.violation(b + "/shared-handle", w + f" [ops {ops}, schedule {schd}]", case)
@@ -475,6 +484,7 @@ def plan(tier, seed):
     ns = 4 if tier == "quick" else 8
     for ops in (CONC_FIXED[:1] if tier == "quick" else CONC_FIXED):
         tasks += [{"kind": "conc_enum", "ops": ops, "shard": s_, "nshard": ns} for s_ in range(ns)]
+        tasks += [{"kind": "conc_enum", "ops": ops, "shard": s_, "nshard": 12, "depth2": True} for s_ in range(12)]
     tasks += [{"kind": "fsync_fault", "op": op} for op in FS_OPS]
     tasks += [{"kind": "conc_pct", "n": 25 if tier == "quick" else 600, "seed": seed * 1000 + 700 + s, "tier": tier} for s in range(4 if tier == "quick" else 16)]
     return tasks
